@@ -229,7 +229,12 @@ def check_config(ctx, F, tag):
             raw = any(isinstance(x, tuple) and x[:2] == ("param", 1) for x in subterms(st))
             shape = core(st)[0] in ("MASKED",) or (core(st)[0] == "bin" and core(st)[1] in ("Shr",) and core(core(st)[2]) == ("MASKED",))
             return has_masked and not raw and shape
-        okz = all(clean_word(pb.term_of_operand(t["args"][-1])) for t in pushes)
+        def full_width_push(t):
+            blk = [bi for bi, tt in pb.calls() if tt is t]
+            return bool(blk) and core(pb.term_of_operand(t["args"][-1]))[:2] == ("param", 1) and \
+                any(f[0] == "cmp" and f[1] == "Eq" and ((core(f[2])[:2] == ("param", 2) and core(f[3])[:2] == ("const", 64)) or
+                                                       (core(f[3])[:2] == ("param", 2) and core(f[2])[:2] == ("const", 64))) for f in facts_at(pb, blk[0]))
+        okz = all(clean_word(pb.term_of_operand(t["args"][-1])) or (fn.endswith("push_int") and full_width_push(t)) for t in pushes)
         ctx.ob("C05.R2.new-words-zero", fn + tag, loc(pb.raw["span"]), okz, "constant", "words appended to data are 0 or the masked value (possibly shifted down): %s" % okz)
     check_masked_direct_stores(ctx, F, tag, "C05.R2")
     pb = F.body("<raw_vector::RawVector as raw_vector::PushRaw>::push_bit")
@@ -301,7 +306,19 @@ def check_config(ctx, F, tag):
         dv = pk.term_of_rvalue(ds[0][2]["rv"])
         # the new data was filled by push_int(value, new_width) with the same new_width
         pushes = [t for _, t in pk.calls() if callee_name(t).endswith("::push_int")]
-        okk = len(pushes) == 1 and core(pk.term_of_operand(pushes[0]["args"][2])) == core(wv) and m(Call("bits::bit_len", ANY), wv)
+        # the new width is bit_len(..) of something -- in every arm, if it is chosen among several ways of computing it
+        alts = [wv]
+        if core(wv)[0] == "var":
+            dd = pk.defs().get(core(wv)[1], [])
+            if dd and all(d[2] in ("assign", "call") for d in dd):
+                alts = [pk.term_of_rvalue(d[3]) if d[2] == "assign" else pk.term_of_call(d[3]) for d in dd]
+        def is_bit_len(v):
+            v = core(v)
+            if m(Call("bits::bit_len", ANY), v):
+                return True
+            # ... or the payload of a helper's Some(bit_len(..))
+            return any(isinstance(x, tuple) and x and x[0] == "call" and x[1] == "bits::bit_len" for x in subterms(v)) and v[0] in ("field", "downcast", "adt")
+        okk = len(pushes) == 1 and core(pk.term_of_operand(pushes[0]["args"][2])) == core(wv) and all(is_bit_len(v) for v in alts)
         detail = "pack: width := %s, data := vector filled by push_int(_, same width): %s" % (tstr(wv)[:80], okk)
     ctx.ob("C05.R3.pack-width-data", "<int_vector::IntVector as ops::Pack>::pack" + tag, loc(pk.raw["span"]), okk, "co-mutation+term", detail)
 
@@ -334,6 +351,10 @@ def check_masked_direct_stores(ctx, F, tag, prefix):
             if isinstance(x, tuple):
                 return tuple(strip(y) for y in x)
             return x
+        def full_width(block):
+            # behind `width == 64` the mask is all ones: the value is what it is
+            return any(f[0] == "cmp" and f[1] == "Eq" and ((core(f[2])[:2] == ("param", wi) and core(f[3])[:2] == ("const", 64)) or
+                                                          (core(f[3])[:2] == ("param", wi) and core(f[2])[:2] == ("const", 64))) for f in facts_at(b, block))
         bad, n = [], 0
         for bi, si, st in b.stmts():
             if st["s"] == "assign" and st["lhs"]["p"] and (st["lhs"]["p"][-1] == "deref" or (isinstance(st["lhs"]["p"][-1], dict) and "idx" in st["lhs"]["p"][-1])):
@@ -341,12 +362,12 @@ def check_masked_direct_stores(ctx, F, tag, prefix):
                     for dbi, rv in b.stored_values(bi, st):
                         n += 1
                         t = strip(b.term_of_rvalue(rv))
-                        if any(isinstance(x, tuple) and x[:2] == ("param", vi) for x in subterms(t)):
+                        if any(isinstance(x, tuple) and x[:2] == ("param", vi) for x in subterms(t)) and not full_width(dbi):
                             bad.append(loc(st["sp"]))
         for bi, t in b.calls():
             if callee_name(t).startswith("std::vec::Vec::<") and callee_name(t).split("::")[-1] == "push":
                 n += 1
-                if any(isinstance(x, tuple) and x[:2] == ("param", vi) for x in subterms(strip(b.term_of_operand(t["args"][-1])))):
+                if any(isinstance(x, tuple) and x[:2] == ("param", vi) for x in subterms(strip(b.term_of_operand(t["args"][-1])))) and not full_width(bi):
                     bad.append(loc(t["sp"]))
         ctx.ob(prefix + ".no-unmasked-direct-store", fn + tag, loc(b.raw["span"]), not bad, "dataflow",
                "%d direct word stores / pushes in the writer; with the value not masked to `width` bits: %s" % (n, bad or "none"), nontrivial=bool(n), positive=True)
